@@ -217,6 +217,38 @@ def run(ctx, report):
         else:
             R3.violation('candidate-mode', 'mode:candidate', 'the candidate tuple no longer carries %s as its operand mode: %s' % (prefix_guard, norm(n)[:80]), where(arch, n))
 
+    R4 = report.rule('C02.D4', 'grammar actions accumulate register coefficients when they merge two parsed operands', floor=2)
+    import re as _re
+    for mod_, fns in ((att, att.funcs), (pa, pa.funcs)):
+        for name, fn in sorted(fns.items()):
+            if not name.startswith('p_') or not fn.args.args:
+                continue
+            tn = fn.args.args[0].arg
+            alias = None
+            keyvars = {}
+            for st in fn.body:
+                if isinstance(st, ast.Assign) and len(st.targets) == 1:
+                    tg, v = st.targets[0], st.value
+                    if u(tg) == '%s[0]' % tn and isinstance(v, ast.Subscript) and u(v.value) == tn and isinstance(v.slice, ast.Constant):
+                        alias = v.slice.value
+                    elif isinstance(tg, ast.Name):
+                        src = set(int(x) for x in _re.findall(r'\b%s\[(\d+)\]' % tn, u(v)))
+                        if src:
+                            keyvars[tg.id] = src
+                    elif alias is not None and isinstance(tg, ast.Subscript) and u(tg.value) == '%s[0]' % tn and isinstance(tg.slice, ast.Name) and tg.slice.id in keyvars:
+                        k = tg.slice.id
+                        inst = '%s:%s' % (name, norm(st))
+                        if keyvars[k] == {alias}:
+                            R4.ok(inst, sample='%s: key %s comes from the aliased operand itself (overwrites its own coefficient)' % (name, k), nontrivial=False)
+                            continue
+                        vt = u(v).replace(' ', '')
+                        if ('%s[0].get(%s,0)' % (tn, k)) in vt or ('%s[%d].get(%s,0)' % (tn, alias, k)) in vt:
+                            R4.ok(inst, sample='%s: %s' % (name, norm(st)))
+                        else:
+                            R4.violation(inst, 'accumulate:%s:%s' % (name, k), '%s stores the coefficient of a register parsed from %s[%s] into the operand aliased from %s[%d] without '
+                                         'adding the coefficient already there: when both name the same register one of them is lost' % (name, tn, sorted(keyvars[k]), tn, alias),
+                                         where(mod_, st), witness="asm_att('leal (%eax,%eax,2), %ebx') encodes [eax*2]")
+
     R2 = report.rule('C02.D2', 'range table of check_imm_size and struct formats are the width semantics', floor=10)
     cis = arch.func('check_imm_size')
     env = dict((k, v) for k, v in E.items())
@@ -346,6 +378,8 @@ MUTANTS = [
     ('att-guard-wide', 'miasmx/arch/ia32_arch.py', "                if -t_size.limit//2 <= int(a[x86_afs.imm]) < t_size.limit:", "                if -t_size.limit//2 <= int(a[x86_afs.imm]) < 2*t_size.limit:", 'C02.D1'),
     ('pack-16-mask', 'miasmx/arch/ia32_arch.py', "                if c[x86_afs.size] in [u08, s08, u16, s16, u32, s32]:\n", "                if mnemo_mode == 'u16' and c[x86_afs.size] in [u32, s32] and not c.get(x86_afs.ad,False):\n                    out_byte+=struct.pack(x86_afs.dict_size[mnemo_mode], int(c[x86_afs.imm]&0xffff))\n                elif c[x86_afs.size] in [u08, s08, u16, s16, u32, s32]:\n", 'C02.D1'),
     ('fixed-dib-no16', 'miasmx/arch/ia32_arch.py', "                        if dib == u32:\n                            dib = u16\n", "                        if dib == u32:\n                            dib = u32\n", 'C02.D3'),
+    ('deref3-overwrite', 'miasmx/arch/ia32_att.py', "    t[0][reg] = t[6] + t[0].get(reg, 0)", "    t[0][reg] = t[6]", 'C02.D4'),
+    ('deref2-overwrite', 'miasmx/arch/ia32_att.py', "    t[0][reg] = 1 + t[0].get(reg, 0)", "    t[0][reg] = 1", 'C02.D4'),
     ('forge-nocheck', 'miasmx/arch/ia32_arch.py', "                v = check_imm_size(a.get(x86_afs.imm, 0), ad[x86_afs.imm])\n                if v is None:\n                    log.debug(\"cannot encode this val in size forge!\")\n                    return None, None\n",
      "                v = tab_size2int[ad[x86_afs.imm]](a.get(x86_afs.imm, 0))\n", 'C02.D1'),
 ]
